@@ -19,6 +19,15 @@
  *   THROW | RESUME | UNWIND | CATCH fa
  *   PEXIT child slot orig | EXIT child slot orig | VFORK child slot orig echild eorig | DTOR
  * stdout per op:  "MODEL <query>" then "IMPL <result in the model's format>"
+ *
+ * Filters x non-local exits (C05/C11): libmcount reads the UFTRACE_FILTER/TRIGGER/DEPTH/... environment
+ * prepared by lib/mcgen.py as usual.  `FXMODE` switches the clock to the scripted one (`T n`, no
+ * auto-advance) and the result lines to the format of the hook model `Mcount`:
+ *   "IMPL [hij=b ]st=idx/ridx/in/out/depth/maxdepth/time/size/en recs=<E|X>:depth:child:time ..."
+ * `END` prints the final state like harness/h1_driver.c and exits normally.
+ *
+ * The PLT symbols of the fake module are matched BY NAME against libmcount's special-function tables
+ * (setup_dynsym_indexes); `NAMES` prints the name of every child id >= 100.
  */
 #define _GNU_SOURCE
 #include <errno.h>
@@ -34,11 +43,12 @@
 
 /* ---- scripted clock and pid (override libc's for the whole executable) ---- */
 static uint64_t h1_now = 1000;
+static uint64_t h1_tick = 3;
 int clock_gettime(clockid_t id, struct timespec *ts)
 {
 	ts->tv_sec = h1_now / 1000000000ULL;
 	ts->tv_nsec = h1_now % 1000000000ULL;
-	h1_now += 3;
+	h1_now += h1_tick;
 	return 0;
 }
 static long h1_pid_delta;
@@ -71,7 +81,13 @@ static fn_t funcs[] = { f0, f1, f2, f3, f4, f5, f6, f7 };
 static char *plt_names[] = { "plainfn",	 "setjmp",	 "longjmp", "vfork",
 			     "execl",	 "exit",	 "pthread_exit", "_Unwind_RaiseException",
 			     "__cxa_throw", "siglongjmp", "__sigsetjmp", "fork",
-			     "otherfn",	 "thirdfn" };
+			     "otherfn",	 "thirdfn",
+			     /* 114.. : further names a program can bind (checks/c11.py drives them by name) */
+			     "_setjmp",	 "sigsetjmp",	 "__longjmp_chk", "_longjmp",
+			     "execv",	 "execve",	 "execvp", "execlp",
+			     "execle",	 "execvpe",	 "fexecve", "posix_spawn",
+			     "posix_spawnp", "daemon",	 "_exit", "_Exit",
+			     "quick_exit", "__vfork" };
 #define NPLT (sizeof(plt_names) / sizeof(plt_names[0]))
 static struct uftrace_symbol plt_syms[NPLT];
 static struct uftrace_symbol *plt_sym_ptrs[NPLT];
@@ -160,6 +176,7 @@ static void *main_ident;
 
 static char recbuf[1 << 16];
 static size_t reclen;
+static int fx_mode;
 
 /* append the records written since the last call (of the current shmem) */
 static void collect_records(void)
@@ -193,6 +210,16 @@ static void collect_records(void)
 			uint64_t w;
 
 			memcpy(&w, b->data + c->off + 8, 8);
+			if (fx_mode) {
+				uint64_t t;
+
+				memcpy(&t, b->data + c->off, 8);
+				if (reclen + 96 < sizeof(recbuf))
+					reclen += sprintf(recbuf + reclen, "%s%c:%u:%ld:%llu", reclen ? " " : "",
+							  "EXLV"[w & 3], (unsigned)((w >> 6) & 0x3ff),
+							  addr_child(w >> 16), (unsigned long long)t);
+				continue;
+			}
 			if (reclen + 64 < sizeof(recbuf))
 				reclen += sprintf(recbuf + reclen, "%s%c%d.%u.%ld", reclen ? "," : "",
 						  (w & 3) == 0 ? 'E' : 'X', c->ident == main_ident ? 0 : 1,
@@ -231,11 +258,42 @@ static void show_val(unsigned long v)
 		printf("%lu", v);
 }
 
+static void show_filter_state(struct mcount_thread_data *mtdp)
+{
+	if (mtdp == NULL || check_thread_data(mtdp)) {
+		printf("st=nothread");
+		return;
+	}
+#ifndef DISABLE_MCOUNT_FILTER
+	printf("st=%d/%d/%d/%d/%d/%d/%llu/%u/%d", mtdp->idx, mtdp->record_idx, mtdp->filter.in_count,
+	       mtdp->filter.out_count, mtdp->filter.depth, mtdp->filter.max_depth,
+	       (unsigned long long)mtdp->filter.time, mtdp->filter.size, (int)mcount_enabled);
+#else
+	printf("st=%d/%d", mtdp->idx, mtdp->record_idx);
+#endif
+}
+
+/* hij: -1 = not a call */
+static void show_fx(int hij)
+{
+	printf("IMPL ");
+	if (hij >= 0)
+		printf("hij=%d ", hij);
+	show_filter_state(get_thread_data());
+	dump_new_records();
+	printf("\n");
+	fflush(stdout);
+}
+
 static void show_state(int with_last, unsigned long last)
 {
 	struct mcount_thread_data *mtdp = get_thread_data();
 	int i;
 
+	if (fx_mode) {
+		show_fx(-1);
+		return;
+	}
 	printf("IMPL last=");
 	if (with_last)
 		show_val(last);
@@ -324,6 +382,42 @@ int main(void)
 			sscanf(line, "%*s %d", &watch);
 			continue;
 		}
+		if (!strcmp(op, "FXMODE")) {
+			fx_mode = 1;
+			h1_tick = 0;
+			continue;
+		}
+		if (!strcmp(op, "NAMES")) {
+			unsigned i;
+
+			printf("NAMES");
+			for (i = 0; i < NPLT; i++)
+				printf(" %u=%s", 100 + i, plt_names[i]);
+			printf("\n");
+			continue;
+		}
+		if (!strcmp(op, "T")) {
+			h1_now = strtoull(line + 1, NULL, 0);
+			printf("MODEL %s\nIMPL ok\n", line);
+			continue;
+		}
+		if (!strcmp(op, "END")) {
+			struct mcount_thread_data *mtdp = get_thread_data();
+
+			printf("MODEL END\n");
+			if (!mtdp || check_thread_data(mtdp)) {
+				printf("IMPL end nothread\n");
+				break;
+			}
+			printf("IMPL end idx=%d ridx=%d", mtdp->idx, mtdp->record_idx);
+#ifndef DISABLE_MCOUNT_FILTER
+			printf(" filt=%d/%d/%d/%d/%llu/%u en=%d", mtdp->filter.in_count, mtdp->filter.out_count,
+			       mtdp->filter.depth, mtdp->filter.max_depth, (unsigned long long)mtdp->filter.time,
+			       mtdp->filter.size, (int)mcount_enabled);
+#endif
+			printf("\n");
+			break;
+		}
 		if (!strcmp(op, "CALL")) {
 			n = sscanf(line, "%*s %7s %ld %ld %ld %ld", k, &a[0], &a[1], &a[2], &a[3]);
 			printf("MODEL %s\n", line);
@@ -331,7 +425,10 @@ int main(void)
 			fake[a[1]] = a[2];
 			fake[a[1] - 1] = word(a[3]);
 			hook_entry(k[0], a[0], a[1], &regs);
-			show_state(0, 0);
+			if (fx_mode)
+				show_fx(fake[a[1]] != (unsigned long)a[2]);
+			else
+				show_state(0, 0);
 		}
 		else if (!strcmp(op, "RET")) {
 			unsigned long v;
